@@ -94,10 +94,191 @@ def cases(draw, tier):
     return {"tm": spec, "ks": ks, "L": 3 if len(spec["S"]) == 2 else 4}
 
 
+CAP = 1300
+
+
+def check_query(T, spec, w, k, default=False, full=None):
+    """One verdict query and one trace query with budget k (or the default budget 1000 when default=True) against the oracle.
+    full: the oracle's (verdict, trace) under budget CAP, of which the run under a smaller budget is a prefix."""
+    kk = 1000 if default else k
+    if full is not None and kk <= CAP:
+        h = len(full[1]) - 1
+        want, trace = (full[0] if kk >= h else None), full[1][:min(kk, h) + 1]
+    else:
+        want, trace = RT.run(spec, w, kk)
+    args = (T, w) if default else (T, w, k)
+    label = "default budget" if default else "max_steps=%d" % k
+    got = lib(tm_accepts_word, *args)
+    if got is not want:
+        raise Fail("verdict", "tm_accepts_word(%r, %s) = %r, Sipser semantics gives %r" % (w, label, got, want), word=w, k=k)
+    rows = lib(tm_simulate_word, *args)
+    if not isinstance(rows, list) or not rows:
+        raise Fail("trace_start", "trace for %r is %r" % (w, rows))
+    rows = [norm_row(r, spec["blank"]) for r in rows]
+    ref_rows = [norm_row(r, spec["blank"]) for r in trace]
+    if rows[0] != ref_rows[0]:
+        raise Fail("trace_start", "trace for %r does not start at the initial configuration: %r" % (w, rows[:1]))
+    if rows != ref_rows:
+        i = next(i for i in range(max(len(rows), len(ref_rows))) if i >= len(rows) or i >= len(ref_rows) or rows[i] != ref_rows[i])
+        raise Fail("trace", "trace for %r (%s) deviates at step %d: %r, expected %r" % (w, label, i, rows[i] if i < len(rows) else None, ref_rows[i] if i < len(ref_rows) else None))
+    return got, len(trace) - 1
+
+
+def run_boundary(case):
+    spec = case["tm"]
+    T = BT.mk_tm(spec)
+    before = BT.canon(spec)
+    cls = set()
+    nt = False
+    for w in case["words"]:
+        full, trace = RT.run(spec, w, CAP)
+        h = len(trace) - 1 if full is not None else None
+        ks = set(case["ks"])
+        if h is not None:
+            ks |= {max(h - 1, 0), h, h + 1, 2 * h + 1}
+            if h >= 2:
+                nt = True
+                cls.add("halting_time_%s" % ("2_9" if h < 10 else ("10_99" if h < 100 else "100_plus")))
+            if any(t[2] == 0 and trace[i][2] == 0 for i, t in enumerate(trace[1:])) and any(r[2] > 0 for r in trace):
+                cls.add("returns_to_left_end")
+        else:
+            cls.add("does_not_halt_within_%d" % CAP)
+        order = sorted(ks, reverse=case["desc"])
+        seen = {}
+        for k in order:
+            v, steps = check_query(T, spec, w, k, full=(full, trace))
+            seen[k] = v
+            if h is not None and ((k >= h) != (v is not None)):
+                raise Fail("boundary", "machine halts on %r after exactly %d steps, verdict with budget %d is %r" % (w, h, k, v))
+        decided = {v for v in seen.values() if v is not None}
+        if len(decided) > 1:
+            raise Fail("verdict_not_monotone", "verdicts for %r under budgets %r: %r" % (w, order, seen))
+        check_query(T, spec, w, 0, default=True, full=(full, trace))
+        if h is not None and h > 1000:
+            cls.add("needs_more_than_default_budget")
+    if BT.snap_tm(T) != before:
+        raise Fail("mutates_argument", "the TM was changed by simulation")
+    return {"nt": nt, "cls": sorted(cls), "out": {"words": len(case["words"])}}
+
+
+@st.composite
+def boundary_cases(draw, tier):
+    k = draw(st.integers(0, 9))
+    if k == 0:
+        spec = draw(GT.walker_tm_specs(lengths=(998, 999, 1000, 1001, 1002)))
+        words = ["", "a", "aa"]
+    else:
+        spec = draw(GT.textbook_tm_specs())
+        S = spec["S"] or ["a"]
+        words = draw(st.lists(st.text(alphabet=S, max_size=8 if tier == "quick" else 12), min_size=1, max_size=4, unique=True))
+        if spec["S"] == ["a", "b"] and draw(st.booleans()):
+            n = draw(st.integers(0, 4))
+            words.append("a" * n + "b" * n)
+        if not spec["S"]:
+            words = [""]
+    ks = draw(st.lists(st.integers(0, 80), max_size=3, unique=True))
+    return {"tm": spec, "words": words, "ks": ks, "desc": draw(st.booleans())}
+
+
+def run_history(case):
+    """A history of queries and in-place edits on one or two TM objects; every answer is compared with the oracle on the object's current content."""
+    import copy
+    specs = [copy.deepcopy(s) for s in case["tms"]]
+    objs = [BT.mk_tm(s) for s in specs]
+    cls = set()
+    edits = 0
+    queries_after_edit = 0
+    for op in case["ops"]:
+        i = op[1] % len(objs)
+        T, spec = objs[i], specs[i]
+        if op[0] == "query":
+            _, w, k = op[1], op[2], op[3]
+            w = "".join(ch for ch in w if ch in spec["S"])
+            check_query(T, spec, w, k, default=(k is None))
+            if edits:
+                queries_after_edit += 1
+        elif op[0] == "words":
+            n, k = op[2], op[3]
+            from gambatools.tm_algorithms import tm_words_up_to_n
+            got = lib(tm_words_up_to_n, T, n, k)
+            want = {w for w in G.all_words(spec["S"], n) if RT.run(spec, w, k)[0] is True}
+            if not isinstance(got, set) or got != want:
+                raise Fail("words_up_to_n", "tm_words_up_to_n(T, %d, %d): missing %r extra %r" % (n, k, sorted(want - set(got))[:3], sorted(set(got) - want)[:3]))
+        elif op[0] == "print":
+            lib(str, T)
+        elif op[0] == "set":
+            p = spec["Q"][op[2] % len(spec["Q"])]
+            if p in (spec["acc"], spec["rej"]):
+                continue
+            a = spec["G"][op[3] % len(spec["G"])]
+            q = spec["Q"][op[4] % len(spec["Q"])]
+            b = spec["G"][op[5] % len(spec["G"])]
+            m = "LR"[op[6] % 2]
+            spec["d"] = [t for t in spec["d"] if not (t[0] == p and t[1] == a)] + [[p, a, q, b, m]]
+            T.delta[p, a] = (q, b, m)
+            edits += 1
+            cls.add("transition_set_in_place")
+        elif op[0] == "del":
+            if not spec["d"]:
+                continue
+            t = spec["d"].pop(op[2] % len(spec["d"]))
+            del T.delta[t[0], t[1]]
+            edits += 1
+            cls.add("transition_deleted_in_place")
+        if BT.snap_tm(T) != BT.canon(spec):
+            raise Fail("mutates_argument", "operation %r changed the TM object" % (op[0],))
+    if len(objs) == 2:
+        cls.add("two_objects")
+    return {"nt": queries_after_edit > 0, "cls": sorted(cls), "out": {"ops": len(case["ops"]), "edits": edits}}
+
+
+@st.composite
+def history_cases(draw, tier):
+    n = draw(st.integers(1, 2))
+    first = draw(GT.textbook_tm_specs())
+    tms = [first]
+    if n == 2:
+        # the second machine shares names with the first: same structure with one change, or an unrelated machine
+        if draw(st.booleans()) and first["d"]:
+            other = dict(first, d=[list(t) for t in first["d"]])
+            i = draw(st.integers(0, len(other["d"]) - 1))
+            other["d"][i][2] = other["Q"][draw(st.integers(0, len(other["Q"]) - 1))]
+            tms.append(other)
+        else:
+            tms.append(draw(GT.textbook_tm_specs()))
+    words = st.text(alphabet="ab", max_size=6)
+    budget = st.one_of(st.sampled_from([0, 1, 2, 3, 5, 10, 50, 1000, None]), st.integers(0, 40))
+    op = st.one_of(
+        st.tuples(st.just("query"), st.integers(0, 1), words, budget),
+        st.tuples(st.just("query"), st.integers(0, 1), words, budget),
+        st.tuples(st.just("words"), st.integers(0, 1), st.integers(0, 3), st.sampled_from([0, 3, 10, 50, 1000])),
+        st.tuples(st.just("print"), st.integers(0, 1)),
+        st.tuples(st.just("set"), st.integers(0, 1), st.integers(0, 63), st.integers(0, 7), st.integers(0, 63), st.integers(0, 7), st.integers(0, 1)),
+        st.tuples(st.just("del"), st.integers(0, 1), st.integers(0, 63)),
+    )
+    ops = draw(st.lists(op, min_size=3, max_size=10 if tier == "quick" else 16))
+    # repeat an earlier query after the edits: a stale cache would answer from before the edit
+    qs = [o for o in ops if o[0] == "query"]
+    if qs:
+        ops.append(qs[draw(st.integers(0, len(qs) - 1))])
+    return {"tms": tms, "ops": [list(o) for o in ops]}
+
+
 CLAUSES = [
     Clause("simulate", cases, run, quick=700, thorough=6000,
            rule="random deterministic TMs (2-5 states, partial delta, L/R moves, blank writes, extra tape symbol, halting initial state class) x all words up "
                 "to length 3-4 x step budgets from {0,1,2,3,5,10,50,1000}; verdict compared by identity, traces element-wise, monotonicity in the budget; "
                 "non-trivial: a run of >= 2 steps with a missing transition, a left move at cell 0, a blank write or an exhausted budget"),
+]
+CLAUSES += [
+    Clause("boundary", boundary_cases, run_boundary, quick=400, thorough=4000,
+           rule="textbook machines (a^n b^n, right-then-left walkers bouncing at cell 0, erasers writing blanks, non-halting spinners, chain walkers of 3..60 and "
+                "998..1002 states, random machines; one transition dropped/flipped one time in four) x words up to length 8 (12 thorough) x budgets h-1, h, h+1, 2h+1 "
+                "around the oracle's halting time h, random budgets 0..80 and the default budget (argument omitted); verdict decided iff budget >= h, traces element-wise; "
+                "non-trivial: halting time >= 2"),
+    Clause("object_history", history_cases, run_history, quick=400, thorough=4000,
+           rule="histories on one or two live TM objects: verdict/trace queries with arbitrary budgets, tm_words_up_to_n, printing, in-place edits of delta "
+                "(set / delete a transition), an earlier query repeated at the end; every answer compared with the oracle on the object's current content; "
+                "non-trivial: a query after an in-place edit"),
 ]
 KNOWN_PREDICATES = {}
